@@ -144,6 +144,30 @@ Theorem modulo_is_truncated : forall a b, b <> 0 -> arith OMod (Some (VInt a)) (
 Proof. exact mod_truncated_p. Qed.
 Print Assumptions modulo_is_truncated.
 
+(* ---- the constraint summary that prunes the collections of a dataset search (PredicateConstraintsSummary):
+   whenever the predicate is true on a row, the row's value of every extracted key equals the extracted literal *)
+Theorem constraint_summary_sound : forall rho iskey tbl p c v,
+  eval3 (tval rho tbl) p = TT -> In (c, v) (summary iskey tbl p) ->
+  cmp3 CEq (rho c) (Some v) = TT \/ cmp3 CEq (Some v) (rho c) = TT.
+Proof. exact summary_sound_p. Qed.
+Print Assumptions constraint_summary_sound.
+
+Theorem where_summary_sound : forall rho iskey e q c v,
+  compile e = Some q -> keeps rho q = true -> In (c, v) (where_summary iskey e) ->
+  cmp3 CEq (rho c) (Some v) = TT \/ cmp3 CEq (Some v) (rho c) = TT.
+Proof. exact where_summary_sound_p. Qed.
+Print Assumptions where_summary_sound.
+
+(* reading an inverted `==` as a constraint is unsound: NOT (instrument = 'Cam') keeps the 'Oth' row, the unsound
+   summary says instrument = 'Cam' (and the collections holding that row are pruned); the faithful summary is empty *)
+Theorem constraint_summary_inverted_eq_refuted :
+  match compile e_notgov with Some q => keeps rho_oth q = true | None => False end /\
+  where_summary_g true (fun _ => true) e_notgov = [(0%N, VStr "Cam")] /\
+  where_summary (fun _ => true) e_notgov = [] /\
+  cmp3 CEq (rho_oth 0%N) (Some (VStr "Cam")) = FF.
+Proof. exact summary_bad_refuted_p. Qed.
+Print Assumptions constraint_summary_inverted_eq_refuted.
+
 (* ---- where the faithful model violates the property (each witness replays on the real Butler: known findings) *)
 (* `.begin` of a NULL timespan is nanosecond 0 in SQL: the row is kept although the comparison is unknown; this is why
    compile_correct carries bounds_ok *)
